@@ -228,7 +228,9 @@ pub fn c08_families(tier: &str) -> Vec<Family> {
         v.push(fam_hist(US, 3, "w12", &ORD_ONE));
         v.push(fam(US, 3, "wtiny", &ORD_ONE));
         // three-level weight alphabets on 3-node digraphs, quick: graphs with at most 3 edges
-        for wa in ["w123", "wf32"] {
+        // wf71 = {0.7, 0.1}: inexact in binary, (0.7 + 0.1) - 0.7 < 0.1 — a cutoff EQUAL to a reported distance sits
+        // on the rounding boundary of any rewritten cutoff test (two-hop sums only, so every sum is one addition)
+        for wa in ["w123", "wf32", "wf71"] {
             let mut f = fam(DS, 3, wa, &ORD_ONE);
             f.max_edges = 3;
             v.push(f);
@@ -236,6 +238,7 @@ pub fn c08_families(tier: &str) -> Vec<Family> {
     } else {
         v.push(fam(DS, 3, "w123", &ORD_ALL));
         v.push(fam(DS, 3, "wf32", &ORD_TWO));
+        v.push(fam(DS, 3, "wf71", &ORD_ONE));
         v.push(fam(US, 3, "wf32", &ORD_TWO));
         v.extend(route_small("w12", true));
         v.extend(hist_small("w12", false));
